@@ -15,7 +15,7 @@ RULE = (
     "method forms are compared with sqrt of the exact rational squared distance (1e-9 relative), symmetry "
     "1e-12, and d==0 <=> exact intersection non-empty <=> intersection(a,b) is not None. non-trivial = any "
     "class except two generic points (parallel, coincident, intersecting, skew, in-plane, point on carrier); "
-    "distinct = distinct (a,b) descriptors."
+    "each case also draws int/float coordinates and a constructor form per operand; distinct = distinct (a, b, variant)."
 )
 ASSUMPTIONS = [
     "float coordinates; reference sqrt(float(exact d^2)) is accurate to 1 ulp",
@@ -27,7 +27,8 @@ PAIRS = [("P", "P"), ("P", "L"), ("L", "P"), ("L", "L"), ("P", "PL"), ("PL", "P"
 
 def check(case, ctx):
     G = lib()
-    a, b = case
+    a, b = case[0], case[1]
+    var = case[2] if len(case) > 2 else B.DEFAULT_VAR
     d2 = X.dist2(a, b)
     ref = math.sqrt(float(d2))
     r = X.inter_flat(a, b)
@@ -46,7 +47,7 @@ def check(case, ctx):
     if not (a[0] == "P" and b[0] == "P" and r is None):
         ctx.nontrivial(case)
     ctx.sample(cls, case, ref)
-    oa, ob = B.build(a), B.build(b)
+    oa, ob = B.build_var(a, b, var)
     facts = {"pair": "%s-%s" % (a[0], b[0]), "relation": rel, "parallel": par}
     calls = [("distance(a,b)", G.distance, (oa, ob)), ("distance(b,a)", G.distance, (ob, oa))]
     if a[0] in ("L", "PL"):
@@ -82,7 +83,7 @@ def check(case, ctx):
 
 
 def admit(case, fail):
-    a, b = case
+    a, b = case[0], case[1]
     return A.flat_case_margin(a, b, X.inter_flat(a, b)).reason()
 
 
@@ -91,5 +92,5 @@ def strata(tier):
     out = []
     for ka, kb in PAIRS:
         for rec in gen.flat_recipes(ka, kb):
-            out.append(Stratum("%s-%s/%s" % (ka, kb, rec), "hyp", gen.flat_pair(ka, kb, rec), per))
+            out.append(Stratum("%s-%s/%s" % (ka, kb, rec), "hyp", gen.with_variant(gen.flat_pair(ka, kb, rec)), per))
     return out
